@@ -29,6 +29,7 @@ import (
 	"testing"
 	"time"
 
+	"github.com/containerd/nri/pkg/adaptation"
 	"github.com/containerd/nri/pkg/api"
 	"github.com/containerd/nri/pkg/stub"
 	"github.com/containerd/ttrpc"
@@ -172,6 +173,12 @@ type C19Case struct {
 	// what UpdateFn answers to an empty update list (those calls carry no tag):
 	// 0 nothing, 1 one marker update as failed, 2 an error
 	EmptyMode int `json:"empty_mode,omitempty"`
+	// RequestTimeoutMs > 0: the plugin request timeout (adaptation.SetPluginRequestTimeout) is
+	// set to this value while the updaters and callers run ("queue" shapes: updates wait for
+	// the adaptation lock longer than the timeout although nobody exceeds it)
+	RequestTimeoutMs int `json:"request_timeout_ms,omitempty"`
+	// the updaters start this long after the callers
+	UpdaterDelayUs int `json:"updater_delay_us,omitempty"`
 }
 
 const (
@@ -237,7 +244,51 @@ func genC19Call(allowEmpty bool) *rapid.Generator[C19Call] {
 	})
 }
 
+// genC19Queue draws a case in which an update has to wait for the adaptation lock for longer
+// than the (shortened) plugin request timeout while every single party stays well within it:
+// "updates": k plugins update at the same moment and UpdateFn takes hold ms, so the last
+// one waits (k-1)*hold >= timeout+150 ms; "request": a lifecycle request is relayed through
+// k plugins whose handlers take hold ms each (k*hold >= timeout+150 ms) and updates are
+// issued 30 ms after it began.
+func genC19Queue(t *rapid.T) C19Case {
+	timeout := rapid.SampledFrom([]int{300, 400, 500}).Draw(t, "timeout_ms")
+	maxHold := timeout * 6 / 10
+	if maxHold > 250 {
+		maxHold = 250
+	}
+	hold := rapid.IntRange(150, maxHold).Draw(t, "hold_ms")
+	need := (timeout + 150 + hold - 1) / hold
+	c := C19Case{RequestTimeoutMs: timeout, EmptyMode: rapid.IntRange(0, 2).Draw(t, "empty_mode")}
+	if rapid.Bool().Draw(t, "queue_behind_updates") {
+		k := need + 1
+		c.SpinUpdUs = hold * 1000
+		for i := 0; i < k; i++ {
+			c.Plugins = append(c.Plugins, C19Plugin{Idx: fmt.Sprintf("%02d", rapid.IntRange(0, 99).Draw(t, "idx"))})
+			c.Updaters = append(c.Updaters, C19Updater{Plugin: i, Calls: []C19Call{genC19Call(false).Draw(t, "call")}})
+		}
+		return c
+	}
+	k := need
+	if k < 3 {
+		k = 3
+	}
+	c.SpinHdlUs = hold * 1000
+	c.UpdaterDelayUs = 30000
+	for i := 0; i < k; i++ {
+		c.Plugins = append(c.Plugins, C19Plugin{Idx: fmt.Sprintf("%02d", rapid.IntRange(0, 99).Draw(t, "idx"))})
+	}
+	c.Callers = [][]int32{{rapid.SampledFrom([]int32{4, 4, 8, 10, 1, 6, 12}).Draw(t, "event")}}
+	nu := rapid.IntRange(1, 2).Draw(t, "updaters")
+	for i := 0; i < nu; i++ {
+		c.Updaters = append(c.Updaters, C19Updater{Plugin: rapid.IntRange(0, k-1).Draw(t, "updater_plugin"), Calls: []C19Call{genC19Call(false).Draw(t, "call")}})
+	}
+	return c
+}
+
 func genC19(t *rapid.T) C19Case {
+	if rapid.IntRange(0, 24).Draw(t, "queue_shape") == 24 {
+		return genC19Queue(t)
+	}
 	c := C19Case{
 		SpinUpdUs: rapid.SampledFrom([]int{0, 100, 500, 500, 1000, 2000}).Draw(t, "spin_update_us"),
 		SpinHdlUs: rapid.SampledFrom([]int{0, 100, 500, 500, 1000, 2000}).Draw(t, "spin_handler_us"),
@@ -679,6 +730,15 @@ func runC19Once(c C19Case) (ev.Outcome, int) {
 	}
 
 	// phase 2: updaters, runtime callers, the unstarted stub and late registrations together
+	short := c.RequestTimeoutMs >= 100 && c.RequestTimeoutMs <= 30000 && !broken
+	if short {
+		adaptation.SetPluginRequestTimeout(time.Duration(c.RequestTimeoutMs) * time.Millisecond)
+	}
+	restore := func() {
+		if short {
+			adaptation.SetPluginRequestTimeout(30 * time.Second)
+		}
+	}
 	start := make(chan struct{})
 	var wg sync.WaitGroup
 	updaters, callers, unstarted := c.Updaters, c.Callers, c.Unstarted
@@ -690,6 +750,9 @@ func runC19Once(c C19Case) (ev.Outcome, int) {
 		go func(ui int, u C19Updater) {
 			defer wg.Done()
 			<-start
+			if c.UpdaterDelayUs > 0 && c.UpdaterDelayUs <= 1000000 {
+				time.Sleep(time.Duration(c.UpdaterDelayUs) * time.Microsecond)
+			}
 			pi := u.Plugin
 			if pi < 0 {
 				pi = -pi
@@ -751,7 +814,25 @@ func runC19Once(c C19Case) (ev.Outcome, int) {
 	case <-time.After(120 * time.Second):
 		// not a clause of this property (the calls that must not block have their own
 		// watchdogs): inconclusive. The goroutines are abandoned.
+		restore()
 		return ev.Outcome{Overloaded: true, Classes: []string{"watchdog"}}, 1
+	}
+	restore()
+	// a healthy plugin that lost its connection while the request timeout was short was most
+	// likely dropped for being late on an overloaded machine (its handler may then have run
+	// outside the request): such an execution is not judged
+	if short {
+		for _, l := range live {
+			if l != nil && l.ok && l.p.Closed.Load() > 0 {
+				for _, l := range live {
+					if l != nil && l.p.Stub != nil {
+						l.p.Stub.Stop()
+					}
+				}
+				rt.Stop()
+				return ev.Outcome{Overloaded: true, Classes: []string{"healthy-plugin-dropped-under-short-timeout"}}, 1
+			}
+		}
 	}
 
 	// phase 3: nothing else is in flight any more; updates racing Stop() and after Stop()
@@ -1047,6 +1128,15 @@ func judgeC19(c C19Case, h *c19Hist) (ev.Outcome, int) {
 	}
 	if ur > 0 {
 		classes["overlap:update-request"] = true
+	}
+	if c.RequestTimeoutMs > 0 {
+		// how long did an update wait (issuer's marks cannot tell; use the plan): class only
+		if c.UpdaterDelayUs > 0 {
+			classes["lock-wait-over-timeout:behind-request"] = true
+		} else {
+			classes["lock-wait-over-timeout:behind-updates"] = true
+		}
+		classes["lock-wait-over-timeout"] = true
 	}
 	out.NonTrivial = len(ups) >= 2 && (uu > 0 || ur > 0)
 	out.Classes = append(out.Classes, fmt.Sprintf("plugins:%d", len(c.Plugins)), fmt.Sprintf("updaters:%d", len(c.Updaters)), fmt.Sprintf("callers:%d", len(c.Callers)))
